@@ -9,6 +9,7 @@ use signalo_sources as sources;
 use signalo_traits::{Filter, Finalize, Sink, Source};
 use std::cell::RefCell;
 use std::collections::HashMap;
+use std::ops::BitOr;
 use std::rc::Rc;
 
 // ---- sources ----------------------------------------------------------------------------------
@@ -299,8 +300,8 @@ pub enum Dyn {
     Unit(Box<UnitPipe<Dyn>>),
     Pipe(Box<Pipe<Dyn, Dyn>>),
     /// built with `|` from a `Pipe` / a `UnitPipe` on the left
-    OrPipe(Box<Pipe<Pipe<Dyn, Dyn>, Dyn>>),
-    OrUnit(Box<Pipe<UnitPipe<Dyn>, Dyn>>),
+    OrPipe(Box<<Pipe<Dyn, Dyn> as BitOr<Dyn>>::Output>),
+    OrUnit(Box<<UnitPipe<Dyn> as BitOr<Dyn>>::Output>),
 }
 impl Filter<Q> for Dyn {
     type Output = Q;
@@ -319,8 +320,8 @@ pub enum SDyn {
     Src(BoxSrc),
     Unit(Box<UnitPipe<SDyn>>),
     Pipe(Box<Pipe<SDyn, Dyn>>),
-    OrPipe(Box<Pipe<Pipe<SDyn, Dyn>, Dyn>>),
-    OrUnit(Box<Pipe<UnitPipe<SDyn>, Dyn>>),
+    OrPipe(Box<<Pipe<SDyn, Dyn> as BitOr<Dyn>>::Output>),
+    OrUnit(Box<<UnitPipe<SDyn> as BitOr<Dyn>>::Output>),
 }
 impl Source for SDyn {
     type Output = Q;
@@ -352,8 +353,8 @@ pub enum KDyn {
     Snk(SinkLeaf),
     Unit(Box<UnitPipe<KDyn>>),
     Pipe(Box<Pipe<Dyn, KDyn>>),
-    OrPipe(Box<Pipe<Pipe<Dyn, Dyn>, KDyn>>),
-    OrUnit(Box<Pipe<UnitPipe<Dyn>, KDyn>>),
+    OrPipe(Box<<Pipe<Dyn, Dyn> as BitOr<KDyn>>::Output>),
+    OrUnit(Box<<UnitPipe<Dyn> as BitOr<KDyn>>::Output>),
 }
 impl Sink<Q> for KDyn {
     fn sink(&mut self, x: Q) {
